@@ -161,7 +161,7 @@ def check_trunc(c):
             read_lines.append(sx([Sym('read'), int(comma), bk[0], bk[1], cps(got[1])]))
             read_idx.append(i)
     # C03_marker on the implementation's own output: unmarked text reads back to the value
-    rd = c.model('fmt', read_lines)
+    rd = c.model('fmt', read_lines, cross=False)
     for i, o in zip(read_idx, rd):
         neg, p, q, vex, bk, st, comma, kind = cases[i]
         x = Fraction(-p if neg else p, q)
@@ -202,7 +202,7 @@ def check_int_sf(c):
                     cases.append((v, bk, sf))
     lines = [sx([Sym('fmt-int'), F.limbs(v), int(len(F.limbs(v)) > 1), bk[0], bk[1], 0, 1, sf]) for (v, bk, sf) in cases]
     impl = c.impl('fmt', lines)
-    model = c.model('fmt', lines)
+    model = c.model('fmt', lines, cross=False)      # same op is cross-sampled by C02
     for i, (v, bk, sf) in enumerate(cases):
         b = bk[1]
         ds = F.int_digits(v, b)
@@ -672,7 +672,7 @@ def check_real(c):
     slines = [sx([Sym('sval'), rexpr_sx(e)]) for e in exprs]
     impl = c.impl('fmt', lines)
     model = c.model('fmt', mlines)
-    svals = c.model('fmt', slines)
+    svals = c.model('fmt', slines, cross=False)
     for i, e in enumerate(exprs):
         t = rexpr_text(e)
         try:
